@@ -15,6 +15,7 @@ import (
 	"runtime/metrics"
 	"sort"
 	"strings"
+	"time"
 
 	"github.com/gopacket/gopacket"
 	"github.com/gopacket/gopacket/pcapgo"
@@ -72,6 +73,21 @@ func loadSeeds(maxLen int) []seed {
 			k = "pcapng"
 		}
 		out = append(out, seed{filepath.Base(f), k, d})
+	}
+	// classic pcap files written by the library's own writer with declared snap lengths 0 (often
+	// used for "unlimited") and 65535
+	for _, snap := range []uint32{0, 65535} {
+		var b bytes.Buffer
+		w := pcapgo.NewWriter(&b)
+		w.WriteFileHeader(snap, 1)
+		for i, n := range []int{5, 60} {
+			d := make([]byte, n)
+			for j := range d {
+				d[j] = byte(i*16 + j)
+			}
+			w.WritePacket(gopacket.CaptureInfo{Timestamp: time.Unix(int64(1000+i), 0), CaptureLength: n, Length: n + i}, d)
+		}
+		out = append(out, seed{fmt.Sprintf("synthetic-pcap-snaplen-%d", snap), "pcap", b.Bytes()})
 	}
 	out = append(out, seed{"synthetic-snoop-2-records", "snoop", snoopFile([][]byte{{1, 2, 3, 4, 5, 6, 7}, {9, 9, 9, 9}}, 4)})
 	out = append(out, seed{"synthetic-snoop-unpadded", "snoop", snoopFile([][]byte{{1, 2, 3, 4, 5, 6, 7, 8}}, 1)})
@@ -169,9 +185,9 @@ func variant(s []byte, j int64) ([]byte, string) {
 type chunked struct {
 	data    []byte
 	pos     int
-	size    int   // constant read size (0 = whatever is asked)
-	shortAt int   // one 1-byte read when pos == shortAt (-1 none)
-	errAt   int   // the k-th Read call returns err (-1 none)
+	size    int // constant read size (0 = whatever is asked)
+	shortAt int // one 1-byte read when pos == shortAt (-1 none)
+	errAt   int // the k-th Read call returns err (-1 none)
 	err     error
 	calls   int
 }
@@ -210,11 +226,11 @@ func (timeoutErr) Temporary() bool { return true }
 // ---- reading ------------------------------------------------------------------------
 
 type pk struct {
-	n           int
-	h           uint64
-	caplen, ln  int
-	ts          int64
-	ifc         int
+	n          int
+	h          uint64
+	caplen, ln int
+	ts         int64
+	ifc        int
 }
 
 type outcome struct {
